@@ -21,6 +21,7 @@ pub struct Norm {
     pub copied_to_map: bool,
     pub drop_calls: Vec<String>,
     pub opaque_macros: Vec<String>,
+    pub rename_calls: Vec<(String, String)>,
     tmp_counter: usize,
 }
 
@@ -123,6 +124,10 @@ impl Norm {
             copied_to_map: req["copied_to_map"].as_bool().unwrap_or(false),
             drop_calls: strs("drop_calls"),
             opaque_macros: strs("opaque_macros"),
+            rename_calls: req["rename_calls"]
+                .as_object()
+                .map(|o| o.iter().map(|(k, v)| (k.clone(), v.as_str().unwrap().to_string())).collect())
+                .unwrap_or_default(),
             tmp_counter: 0,
         }
     }
@@ -355,6 +360,14 @@ fn stmt_is_unit_expr(s: &Stmt) -> bool {
 }
 
 impl VisitMut for Norm {
+    fn visit_type_mut(&mut self, t: &mut Type) {
+        visit_mut::visit_type_mut(self, t);
+        if let Some(nt) = map_vec_type(t) {
+            self.log("N12-smallvec-thinvec-to-vec", t.span());
+            *t = nt;
+        }
+    }
+
     fn visit_block_mut(&mut self, b: &mut Block) {
         // statement-position macros become expression statements so that one rewriter handles both
         let mut new_stmts = Vec::with_capacity(b.stmts.len());
@@ -453,9 +466,22 @@ impl VisitMut for Norm {
                     self.log("N9-for-in-ref", sp);
                 }
             }
+            Expr::Call(c) if !self.rename_calls.is_empty() => {
+                if let Expr::Path(p) = &mut *c.func {
+                    if let Some(last) = p.path.segments.last_mut() {
+                        let n = last.ident.to_string();
+                        if let Some((_, to)) = self.rename_calls.iter().find(|(k, _)| *k == n) {
+                            last.ident = Ident::new(to, last.ident.span());
+                        }
+                    }
+                }
+            }
             Expr::MethodCall(mc) => {
                 let name = mc.method.to_string();
                 let sp = mc.method.span();
+                if let Some((_, to)) = self.rename_calls.iter().find(|(k, _)| *k == name) {
+                    mc.method = Ident::new(to, sp);
+                }
                 match name.as_str() {
                     "unwrap" if mc.args.is_empty() => {
                         self.site("unwrap", sp);
@@ -618,6 +644,29 @@ impl VisitMut for Norm {
             _ => {}
         }
     }
+}
+
+/// N12: `SmallVec<[T; N]>` / `ThinVec<T>` -> `Vec<T>`
+pub fn map_vec_type(t: &Type) -> Option<Type> {
+    if let Type::Path(tp) = t {
+        let last = tp.path.segments.last()?;
+        let name = last.ident.to_string();
+        if name == "SmallVec" {
+            if let PathArguments::AngleBracketed(ab) = &last.arguments {
+                if let Some(GenericArgument::Type(Type::Array(arr))) = ab.args.first() {
+                    let el = &arr.elem;
+                    return Some(parse_quote!(Vec<#el>));
+                }
+            }
+        } else if name == "ThinVec" {
+            if let PathArguments::AngleBracketed(ab) = &last.arguments {
+                if let Some(GenericArgument::Type(el)) = ab.args.first() {
+                    return Some(parse_quote!(Vec<#el>));
+                }
+            }
+        }
+    }
+    None
 }
 
 fn simplify_parens(e: Expr) -> Expr {
